@@ -1,5 +1,70 @@
 package c12
 
-import "wzverif/internal/kit"
+import (
+	"regexp"
+	"sync"
 
-var findings = []kit.Finding[Case]{}
+	"wzverif/internal/kit"
+)
+
+// failures of the per-attribute clauses carry "[attr=<PageSettings field>]" so that a finding can be as narrow as its root cause
+var attrRe = regexp.MustCompile(`\[attr=(\w+)\]`)
+
+func failAttr(f kit.Failure) string {
+	if m := attrRe.FindStringSubmatch(f.Detail); m != nil {
+		return m[1]
+	}
+	return ""
+}
+
+// w:pgMar attribute -> PageSettings field
+var marField = map[string]string{"top": "MarginTop", "right": "MarginRight", "bottom": "MarginBottom", "left": "MarginLeft",
+	"header": "HeaderDistance", "footer": "FooterDistance", "gutter": "GutterWidth"}
+
+const (
+	kfMarAbsent = "KF-C12-pgmar-absent-attr"
+	kfNegCS     = "KF-C12-negative-charspace"
+	kfTwoSect   = "KF-C12-earlier-section"
+)
+
+var findings = []kit.Finding[Case]{
+	{ID: kfMarAbsent, Clause: "C12.S",
+		Desc: "a w:pgMar of another producer that lacks w:top/right/bottom/left/header/footer reads back 0 for the missing attribute instead of the documented default (GetPageSettings parses the empty string as 0), and the next setter writes that 0 into the file",
+		Trigger: func(c Case, f kit.Failure) bool {
+			if c.Start == nil {
+				return false
+			}
+			a := failAttr(f)
+			for _, n := range c.Start.marAbsent() {
+				if n != "gutter" && marField[n] == a {
+					return true
+				}
+			}
+			return false
+		}},
+	{ID: kfNegCS, Clause: "C12.S",
+		Desc: "a negative w:docGrid/@w:charSpace of an opened document (usual in CJK documents) is dropped by the next read-modify-write setter (SetPageSettings writes charSpace only when > 0): setting margins changes the character grid",
+		Trigger: func(c Case, f kit.Failure) bool {
+			return c.Start != nil && c.Start.negCharSpace() && failAttr(f) == "DocGridCharSpace"
+		}},
+	{ID: kfTwoSect, Clause: "C12.S",
+		Desc:    "a document with an earlier section (w:pPr/w:sectPr) ends up with two SectionProperties in Body.Elements: GetPageSettings and every setter use the first (the earlier section's), Save writes only the last (body-level): settings are read from the wrong section and every change is lost on save",
+		Trigger: func(c Case, f kit.Failure) bool { return c.Start != nil && c.Start.HasPara }},
+}
+
+var (
+	openOnce sync.Once
+	openKF   map[string]bool
+)
+
+// resyncable: the failure is one of an open finding whose effect is confined to one attribute; the history goes on
+// from the value the library holds (counted), so that the rest of such a case is still judged.
+func resyncable(c Case, f kit.Failure) bool {
+	openOnce.Do(func() { openKF = kit.OpenFindings("C12") })
+	for _, kf := range findings[:2] {
+		if openKF[kf.ID] && kf.Trigger(c, f) {
+			return true
+		}
+	}
+	return false
+}
